@@ -54,6 +54,11 @@ def gen_cases(tier, seed):
                       gopts={"path": "witness/C03_illcond_locally_infeasible.json"})
     w2.update(fmt="coo", dup=2, y0="none")
     cases.append(w2)
+    # ... and of KF-C03-NEWTON-STEPSIZE-CYCLE
+    w3 = work.mk_case("FILE", [0], {"newton": "Full", "iteration_limit": BUDGET}, variant="newton=Full",
+                      gopts={"path": "witness/C03_newton_stepsize_cycle.json"})
+    w3.update(fmt="coo", dup=2, y0="none")
+    cases.append(w3)
     for i in range(nband):
         for vname, v in VARIANTS:
             c = work.mk_case("BAND", [seed, 10_000 + i], dict(v, iteration_limit=BUDGET), variant=vname,
@@ -141,12 +146,26 @@ def run_case(case):
     if r.status.name != "Optimal":
         smin, mult = active_set_conditioning(spec)
         degenerate = bool(smin is not None and smin < 0.1)
+        # measured marker of a step-size cycle: accepted steps after which the residual is more than three times the
+        # residual after the previous accepted step (the ratio-based controllers accept on contraction of the Newton
+        # corrections, not of the residual)
+        blow, prev = 0, None
+        for t in out.trace.trials:
+            if t.get("accepted") and not t.get("same"):
+                try:
+                    cur = float(t["next"].total_res)
+                except Exception:
+                    continue
+                if prev is not None and cur > 3.0 * prev:
+                    blow += 1
+                prev = cur
         res["viol"].append({"what": "status %s after %d iterations (budget %d) on a problem of the stated class, variant %s "
                                     "(independent reference solution: smallest singular value of the Jacobian of the "
                                     "active rows and active bounds %s, largest multiplier %s)"
                                     % (r.status.name, its, BUDGET, v, "%.3g" % smin if smin is not None else "n/a",
                                        "%.3g" % mult if mult is not None else "n/a"),
-                            "key": dict(key, kind="not-optimal", status=r.status.name, degenerate_active_set=degenerate),
+                            "key": dict(key, kind="not-optimal", status=r.status.name, degenerate_active_set=degenerate,
+                                        residual_blowups=bool(blow >= 10)),
                             "detail": {"spec": spec.summary(), "x0": p.x0, "gseed": case["gseed"]}})
         return res
     res["ctr"]["optimal"] = 1
